@@ -275,6 +275,13 @@ Proof. reflexivity. Qed.
 Lemma seek_node f t a b av bv lastT la pa pb ua :
   seek (S f) t (Node a b av bv lastT la pa pb ua) =
   let i := Node a b av bv lastT la pa pb ua in
+  if lastT =? MinT then
+    match next f i with
+    | None => None
+    | Some (i', false) => Some (i', false)
+    | Some (i', true) => seek f t i'
+    end
+  else
   let ts := atT i in
   if t <=? ts then
     if ua then
@@ -420,6 +427,9 @@ Proof.
   - eapply leaf_seek_started; eauto.
   - assert (HR : RepS (Node a b true bv (fst x) true 0 pb true) (x :: R)) by (constructor; auto).
     rewrite seek_node in H. cbv zeta in H.
+    assert (HxM : (fst x =? MinT) = false).
+    { apply Z.eqb_neq. destruct Hok as [_ HF]. inversion HF; subst. lia. }
+    rewrite HxM in H.
     destruct (RepS_nonempty _ _ Ha) as (x0 & R0 & E0 & HatT & _ & _). injection E0 as <- <-.
     cbn [atT] in H. rewrite HatT in H.
     destruct (t <=? fst x) eqn:Et.
